@@ -44,6 +44,9 @@ var c19Templates = []c19Template{
 	{"doc-with-nested-merge-host", map[string]any{"a": 1, "c": map[string]any{"$merge": "p", "x": 1}, "p": map[string]any{"v": "A"}}, false},
 	{"cross-doc-into-nested-host", map[string]any{"p": map[string]any{"v": "B"}, "y": map[string]any{"$replace": map[string]any{"$match": map[string]any{"a": 1}, "$path": "c"}}, "w": []any{map[string]any{"$replace": []any{map[string]any{"a": 1}, "c"}}}}, false},
 	{"evaluated-key-collides", map[string]any{"name": "svc", "svc": "literal", `$"{name}"`: "interpolated"}, false},
+	{"required", map[string]any{"a": 1, "need": "$required", "c": map[string]any{"x": 1}}, false},
+	{"supplies-required", map[string]any{"$match": map[string]any{"a": 1}, "need": "given"}, false},
+	{"hidden-root", map[string]any{"$output": false, "a": 1, "c": map[string]any{"x": 1}}, false},
 	{"cross-doc-replace-list", map[string]any{"y": map[string]any{"$replace": []any{map[string]any{"a": 1}, "c"}}, "l": []any{[]any{map[string]any{"$merge": map[string]any{"$match": map[string]any{"a": 1}, "$path": "c"}, "z": 0}}}}, false},
 }
 
@@ -441,13 +444,13 @@ func buildC19(tier string) *core.Plan {
 			}
 		}
 	} else {
-		sets = [][]int{{0, 1, 6, 9}, {2, 3, 4, 10}, {5, 7, 8, 11}, {0, 1, 2, 8}, {0, 11, 13, 9}, {12, 14, 1, 6}, {0, 18, 13, 14}, {15, 16, 17, 13}}
+		sets = [][]int{{0, 1, 6, 9}, {2, 3, 4, 10}, {5, 7, 8, 11}, {0, 1, 2, 8}, {0, 11, 13, 9}, {12, 14, 1, 6}, {0, 21, 13, 14}, {15, 16, 17, 13}, {18, 19, 0, 9}, {20, 0, 6, 13}}
 	}
 	statelessSets := sets
 	if thorough {
-		statelessSets = [][]int{{0, 1, 6, 9}, {2, 3, 4, 10}, {5, 7, 8, 11}, {0, 1, 2, 8}, {0, 6, 9, 11}, {1, 4, 8, 10}, {0, 11, 13, 9}, {12, 14, 1, 6}, {0, 18, 13, 14}, {15, 16, 17, 13}}
+		statelessSets = [][]int{{0, 1, 6, 9}, {2, 3, 4, 10}, {5, 7, 8, 11}, {0, 1, 2, 8}, {0, 6, 9, 11}, {1, 4, 8, 10}, {0, 11, 13, 9}, {12, 14, 1, 6}, {0, 21, 13, 14}, {15, 16, 17, 13}, {18, 19, 0, 9}, {20, 0, 6, 13}}
 	} else {
-		statelessSets = [][]int{sets[0], sets[1], sets[4], sets[5], sets[7]}
+		statelessSets = [][]int{sets[0], sets[1], sets[4], sets[5], sets[7], sets[8], sets[9]}
 	}
 
 	// stateless: case = (set, first two ops); inner = all continuations
